@@ -7,14 +7,17 @@ prop, name = sys.argv[1], sys.argv[2]
 rest = sys.argv[3:]
 what = os.environ.get("WHAT", "")
 out = []
+orig, cur = {}, {}
 for i in range(0, len(rest), 3):
     rel, old, new = rest[i:i + 3]
     old = old.encode().decode("unicode_escape"); new = new.encode().decode("unicode_escape")
-    src = open(os.path.join("/repo", rel)).read()
-    if old not in src:
+    if rel not in cur:
+        orig[rel] = cur[rel] = open(os.path.join("/repo", rel)).read()
+    if old not in cur[rel]:
         sys.exit("old text not found in %s: %r" % (rel, old))
-    dst = src.replace(old, new, 1)
-    out.extend(difflib.unified_diff(src.splitlines(True), dst.splitlines(True), "a/" + rel, "b/" + rel))
+    cur[rel] = cur[rel].replace(old, new, 1)
+for rel in orig:
+    out.extend(difflib.unified_diff(orig[rel].splitlines(True), cur[rel].splitlines(True), "a/" + rel, "b/" + rel))
 d = os.path.join(os.path.dirname(os.path.dirname(os.path.abspath(__file__))), "mutants", prop)
 os.makedirs(d, exist_ok=True)
 open(os.path.join(d, name + ".diff"), "w").write("".join(out))
